@@ -182,6 +182,9 @@ struct Lowerer {
     // current window for any new column defs
     window: Option<rq::Window>,
 
+    /// true while the columns of an `aggregate` are lowered
+    in_aggregation: bool,
+
     /// A buffer to be added into current pipeline
     pipeline: Vec<Transform>,
 
@@ -212,6 +215,7 @@ impl Lowerer {
             table_mapping: HashMap::new(),
 
             window: None,
+            in_aggregation: false,
             pipeline: Vec::new(),
             table_buffer: Vec::new(),
         }
@@ -839,7 +843,10 @@ impl Lowerer {
         let id = expr_ast.id.unwrap();
 
         // lower
-        let expr = self.lower_expr(expr_ast)?;
+        let outer_aggregation = std::mem::replace(&mut self.in_aggregation, is_aggregation);
+        let expr = self.lower_expr(expr_ast);
+        self.in_aggregation = outer_aggregation;
+        let expr = expr?;
 
         // don't create new ColumnDef if expr is just a ColumnRef with no renaming
         if let rq::ExprKind::ColumnRef(cid) = &expr.kind {
@@ -873,7 +880,9 @@ impl Lowerer {
     fn lower_expr(&mut self, expr: pl::Expr) -> Result<rq::Expr> {
         let span = expr.span;
 
-        if expr.needs_window {
+        // (an aggregation function nested in the expression of an `aggregate`
+        // column is part of that expression, not a column of its own)
+        if expr.needs_window && !self.in_aggregation {
             let span = expr.span;
             let cid = self.declare_as_column(expr, false)?;
 
